@@ -290,7 +290,14 @@ func (ke *kEval) run(points []crashPoint) {
 		idx = append(idx, i)
 	}
 	sort.Ints(idx)
+	maxEvals := 1 << 30
+	if thorough {
+		maxEvals = 6000 // bound the work of one run (torn variants at every byte count multiply quickly)
+	}
 	for _, i := range idx {
+		if ke.evals > maxEvals {
+			break
+		}
 		pt := points[i]
 		ke.evalPoint(pt, nil)
 		// torn variants of appends
